@@ -245,7 +245,14 @@ type Span struct{ A, B int }
 
 // DotDotWithArg reports whether a path segment of res (before the first ? or #) that
 // contains at least one byte of a non-empty argument span is a dot-dot segment.
-func DotDotWithArg(res string, spans []Span) bool {
+func DotDotWithArg(res string, spans []Span) bool { return dotDot(res, spans, false) }
+
+// DotDotTouchingArg is DotDotWithArg for format strings with markers: an empty span also
+// takes part in the segment it lies in or touches, because whether `.%{x}.` or `%{x}..` is a
+// dot-dot segment depends on the argument alone.
+func DotDotTouchingArg(res string, spans []Span) bool { return dotDot(res, spans, true) }
+
+func dotDot(res string, spans []Span, empty bool) bool {
 	end := len(res)
 	if i := strings.IndexAny(res, "?#"); i >= 0 {
 		end = i
@@ -258,7 +265,7 @@ func DotDotWithArg(res string, spans []Span) bool {
 		}
 		if IsDotDot(res[st:e]) {
 			for _, sp := range spans {
-				if sp.B > sp.A && sp.A < e && sp.B > st {
+				if sp.B > sp.A && sp.A < e && sp.B > st || empty && sp.A == sp.B && sp.A >= st && sp.A <= e {
 					return true
 				}
 			}
